@@ -209,11 +209,132 @@ func init() {
 				}
 			},
 		}
+		// values derived from one common ancestor (sharing its backing array): equality must
+		// look at length and elements, never at storage identity
+		type derive struct {
+			text string
+			f    func(el []V, isVec bool) (V, bool)
+		}
+		sub := func(el []V, a, b int) []V { return append([]V{}, el[a:b]...) }
+		var derives []derive
+		derives = append(derives, derive{"v", func(el []V, isVec bool) (V, bool) {
+			if isVec {
+				return model.Vec(el...), true
+			}
+			return model.List(el...), true
+		}})
+		for k := 0; k <= 3; k++ {
+			k := k
+			derives = append(derives,
+				derive{fmt.Sprintf("(subvec v 0 %d)", k), func(el []V, isVec bool) (V, bool) {
+					if !isVec || k > len(el) {
+						return V{}, false
+					}
+					return model.Vec(sub(el, 0, k)...), true
+				}},
+				derive{fmt.Sprintf("(subvec v %d)", k), func(el []V, isVec bool) (V, bool) {
+					if !isVec || k > len(el) {
+						return V{}, false
+					}
+					return model.Vec(sub(el, k, len(el))...), true
+				}},
+				derive{fmt.Sprintf("(take %d v)", k), func(el []V, isVec bool) (V, bool) {
+					n := k
+					if n > len(el) {
+						n = len(el)
+					}
+					return model.List(sub(el, 0, n)...), true
+				}},
+				derive{fmt.Sprintf("(drop %d v)", k), func(el []V, isVec bool) (V, bool) {
+					n := k
+					if n > len(el) {
+						n = len(el)
+					}
+					return model.List(sub(el, n, len(el))...), true
+				}},
+			)
+		}
+		derives = append(derives,
+			derive{"(rest v)", func(el []V, isVec bool) (V, bool) {
+				if len(el) == 0 {
+					return model.List(), true
+				}
+				return model.List(sub(el, 1, len(el))...), true
+			}},
+			derive{"(rest (rest v))", func(el []V, isVec bool) (V, bool) {
+				if len(el) <= 1 {
+					return model.List(), true
+				}
+				return model.List(sub(el, 2, len(el))...), true
+			}},
+			derive{"(seq v)", func(el []V, isVec bool) (V, bool) {
+				if len(el) == 0 {
+					return model.Nil, true
+				}
+				return model.List(sub(el, 0, len(el))...), true
+			}},
+			derive{"(vec v)", func(el []V, isVec bool) (V, bool) { return model.Vec(sub(el, 0, len(el))...), true }},
+			derive{"(with-meta v {:m 1})", func(el []V, isVec bool) (V, bool) {
+				if isVec {
+					return model.Vec(el...), true
+				}
+				return model.List(el...), true
+			}},
+			derive{"(conj v 1)", func(el []V, isVec bool) (V, bool) {
+				if isVec {
+					return model.Vec(append(sub(el, 0, len(el)), model.Int(1))...), true
+				}
+				return model.List(append([]V{model.Int(1)}, el...)...), true
+			}},
+			derive{"(concat v)", func(el []V, isVec bool) (V, bool) { return model.List(sub(el, 0, len(el))...), true }},
+		)
+		bases := []V{
+			model.Vec(model.Int(1), model.Int(2), model.Int(3)), model.Vec(model.Int(1), model.Int(1), model.Int(1)),
+			model.Vec(model.Vec(model.Int(1)), model.Vec(model.Int(1)), model.Int(1)), model.Vec(model.Int(1)), model.Vec(),
+			model.List(model.Int(1), model.Int(2), model.Int(3)), model.List(model.Int(1), model.Int(1), model.Int(1)), model.List(),
+			model.Vec(model.Nil, model.Nil), model.Vec(model.Int(1), model.Int(2), model.Int(3), model.Int(4), model.Int(5)),
+		}
+		nd := int64(len(derives))
+		derived := &vf.Family{
+			Name:   "derived-from-common-ancestor",
+			Bounds: fmt.Sprintf("%d base sequences (vectors as literals with spare capacity, lists; equal, repeated and nested elements) x all ordered pairs of %d derivations of the same base (subvec windows, take/drop, rest, seq, vec, with-meta, conj, concat)", len(bases), len(derives)),
+			Setup:  func(t string) { tier = t; env = lx.NewCoreEnv() },
+			N:      func(t string) int64 { return int64(len(bases)) * nd * nd },
+			Describe: func(i int64) string {
+				b := bases[i/(nd*nd)]
+				return fmt.Sprintf("(let [v %s] (= %s %s))", b.Lisp(), derives[(i/nd)%nd].text, derives[i%nd].text)
+			},
+			Run: func(i int64, r *vf.Rec) {
+				b := bases[i/(nd*nd)]
+				dx, dy := derives[(i/nd)%nd], derives[i%nd]
+				vx, okx := dx.f(b.Elems, b.K == model.KVec)
+				vy, oky := dy.f(b.Elems, b.K == model.KVec)
+				if !okx || !oky {
+					return
+				}
+				r.NT()
+				lit := b.Lisp()
+				if b.K == model.KList {
+					lit = "(quote " + lit + ")"
+				}
+				text := fmt.Sprintf("(let [v %s] (= %s %s))", lit, dx.text, dy.text)
+				res, err, p := lx.Eval(context.Background(), lx.MustRead(text), env)
+				r.Exec(1)
+				want := model.Equal(vx, vy)
+				if p != nil || err != nil {
+					r.ViolationCase("= fails on derived sequences", text, fmt.Sprint(err, p))
+					return
+				}
+				if got, _ := res.(bool); got != want {
+					r.ViolationCase("= disagrees with structural equality on sequences derived from a common ancestor", text, fmt.Sprintf("expected %v got %v (%s vs %s)", want, res, vx.String(), vy.String()))
+				}
+			},
+		}
 		return &vf.Check{
 			ID: "C14", Level: "model_checking",
 			Rule: "every ordered pair of data values of the bounded space is compared by the real = (through EVAL, with b also rebuilt along a second construction path) and by the model's independent structural equality; reflexivity, symmetry and transitivity are additionally checked on the implementation's own answers; non-trivial = pair of same kind / both sequential / equal",
 			Assumptions: []string{"values above the weight bound; keys over {\"a\", :a, :b}"},
-			Families: []*vf.Family{pairs, triples},
+			Families: []*vf.Family{pairs, triples, derived},
 		}
 	})
 }
